@@ -208,14 +208,15 @@ theorem sim_pq_noMemory (cfg : Cfg) (stop : Byte) : ∀ (fuel : Nat) (acc : List
 
 /-! ## `save` -/
 
-/-- the document with an allocator that never fails (a device to reuse the lemmas about `Doc.saveString`) -/
-def sim_nofail (d : Doc) : Doc := { d with pl := { d.pl with failAt := [], failFrom := none } }
+/-- the document with an allocator that never fails and the string-length limit `mx` (a device to reuse the lemmas about
+    `Doc.saveString`: the builder has checked the length before `save` is reached, so `save` itself has no length test) -/
+def sim_nofail (d : Doc) (mx : Nat) : Doc := { d with pl := { d.pl with failAt := [], failFrom := none }, maxStrLen := mx }
 
-theorem sim_nofail_failsAt (d : Doc) (n : Nat) : (sim_nofail d).pl.failsAt n = false := rfl
+theorem sim_nofail_failsAt (d : Doc) (mx n : Nat) : (sim_nofail d mx).pl.failsAt n = false := rfl
 
 /-- `save` is `saveString` on the never-failing twin, up to the allocator state -/
 theorem sim_save_eq (x : S) (bytes : List Byte) :
-    ∃ d1, (sim_nofail x.d).saveString bytes = (some (save x bytes).1, d1) ∧
+    ∃ d1, (sim_nofail x.d bytes.length).saveString bytes = (some (save x bytes).1, d1) ∧
       (save x bytes).2.d.strings = d1.strings ∧ (save x bytes).2.d.nextNode = d1.nextNode ∧
       (save x bytes).2.d.g = x.d.g ∧ (save x bytes).2.d.root = x.d.root ∧ (save x bytes).2.d.cells = x.d.cells ∧
       (save x bytes).2.d.overflowed = x.d.overflowed ∧
@@ -227,14 +228,14 @@ theorem sim_save_eq (x : S) (bytes : List Byte) :
     have e : save x bytes = (n.id, { x with d := { x.d with strings := (x.d.strings.map (fun y => if y.id == n.id then { y with refs := y.refs + 1 } else y)) } }) := by
       unfold save; rw [hf]
     rw [e]
-    exact ⟨_, saveString_found (d := sim_nofail x.d) hf, rfl, rfl, rfl, rfl, rfl, rfl, rfl, rfl, rfl, rfl, rfl, Or.inl rfl⟩
+    exact ⟨_, saveString_found (d := sim_nofail x.d bytes.length) hf, rfl, rfl, rfl, rfl, rfl, rfl, rfl, rfl, rfl, rfl, rfl, Or.inl rfl⟩
   | none =>
     have e : save x bytes = (x.d.nextNode, { x with d := { x.d with
         pl := (x.d.pl.realloc (bytes.length + x.d.strOverhead) false).2,
         strings := ⟨x.d.nextNode, bytes, 1⟩ :: x.d.strings, nextNode := x.d.nextNode + 1 }, b := none }) := by
       unfold save; rw [hf]
     rw [e]
-    have hs := saveString_new (d := sim_nofail x.d) hf
+    have hs := saveString_short (d := sim_nofail x.d bytes.length) hf (Nat.le_refl _)
     rw [sim_nofail_failsAt, if_neg (by simp)] at hs
     exact ⟨_, hs, rfl, rfl, rfl, rfl, rfl, rfl, rfl, rfl, rfl, rfl, rfl, Or.inr rfl⟩
 
@@ -245,7 +246,7 @@ theorem sim_save (cfg : Cfg) (x : S) (bytes : List Byte) (hp : PL.Inv x.d.g x.d.
     (save x bytes).2.d.overflowed = x.d.overflowed ∧ (sim_BOK cfg x.b → sim_BOK cfg (save x bytes).2.b) := by
   obtain ⟨d1, h, e1, e2, e3, e4, e5, e6, e7, e8, e9, e10, e11, e12⟩ := sim_save_eq x bytes
   obtain ⟨rs0, hrs0⟩ := hs0
-  have hN : ∀ rs, StrOK x.d rs → StrOK (sim_nofail x.d) rs := fun rs hs => StrOK_congr (d := x.d) rfl rfl hs
+  have hN : ∀ rs, StrOK x.d rs → StrOK (sim_nofail x.d bytes.length) rs := fun rs hs => StrOK_congr (d := x.d) rfl rfl hs
   obtain ⟨_, _, _, hb, hkeep, _⟩ := saveString_spec (hN _ hrs0).ids_nodup (hN _ hrs0).ids_lt h
   have hc : ∀ j, (save x bytes).2.d.cell j = x.d.cell j := fun j => by simp only [Doc.cell, e5]
   have hstr : ∀ rs, StrOK x.d rs → StrOK (save x bytes).2.d ((save x bytes).1 :: rs) := fun rs hs =>
@@ -253,7 +254,7 @@ theorem sim_save (cfg : Cfg) (x : S) (bytes : List Byte) (hp : PL.Inv x.d.g x.d.
   have hbytes : ∀ m, (∃ y ∈ x.d.strings, y.id = m) → (save x bytes).2.d.strBytes m = x.d.strBytes m := by
     intro m hm
     rw [strBytes_of_strings e1, hkeep m hm]
-    exact strBytes_of_strings (d := x.d) (d' := sim_nofail x.d) rfl m
+    exact strBytes_of_strings (d := x.d) (d' := sim_nofail x.d bytes.length) rfl m
   refine ⟨e11, ⟨e3, fun _ => e4, fun j _ _ => hc j, by rw [e3]; exact hp.congr e7 e9 e10 e8,
     fun j hj => by rw [e3, live_congr e7 e8]; exact hj,
     fun rs hs => ⟨StrOK_weaken (a := [(save x bytes).1]) (hstr rs hs), strBytes_of_present hbytes hs⟩,
